@@ -53,11 +53,28 @@ fn in_child(f: impl FnOnce(&mut std::fs::File)) -> (String, i32, i32) {
             shim::_exit(0);
         }
         shim::close(fds[1]);
+        // a child that spins is killed after 30 s
+        let done = std::sync::Arc::new(std::sync::atomic::AtomicBool::new(false));
+        let d2 = done.clone();
+        let watchdog = std::thread::spawn(move || {
+            let start = std::time::Instant::now();
+            while start.elapsed().as_secs() < 30 {
+                if d2.load(Ordering::SeqCst) {
+                    return;
+                }
+                std::thread::sleep(std::time::Duration::from_millis(20));
+            }
+            if !d2.load(Ordering::SeqCst) {
+                shim::kill(pid, shim::SIGKILL);
+            }
+        });
         let mut rd = std::fs::File::from_raw_fd(fds[0]);
         let mut s = String::new();
         let _ = rd.read_to_string(&mut s);
         let mut status = 0i32;
         shim::waitpid(pid, &mut status, 0);
+        done.store(true, Ordering::SeqCst);
+        let _ = watchdog.join();
         let sig = if shim::WIFSIGNALED(status) { shim::WTERMSIG(status) } else { 0 };
         let code = if shim::WIFEXITED(status) { shim::WEXITSTATUS(status) } else { -1 };
         (s, code, sig)
